@@ -18,7 +18,7 @@ def run(tier, seed):
     c = cc.consts(MaxOps=4, MaxBlocks=3, OnlySealedBase=True, FPayloads="<- FP1",
                   RootAlgs="<- AlgsBoth" if big else "<- AlgsEd", ExtAlgs="<- AlgsBoth" if big else "<- AlgsEd")
     cc.design(ctx, "sealed-design", c, inv, timeout=7200)
-    c["SampleN"] = 2 if big else 8
+    c["SampleN"] = 16 if big else 8
     e = cc.export(ctx, "sealed-export", c, inv, ("FORGED", "HONEST"), timeout=7200)
     # re-encoding the seal signature does not add, remove or alter a block: not a C08 matter
     cc.replay_forged(ctx, e.exports["FORGED"], weakness_relevant=lambda weak, row: weak != "ecdsa-reencoding")
